@@ -13,6 +13,8 @@ import (
 	"go/token"
 	"go/types"
 	"strings"
+
+	"golang.org/x/tools/go/packages"
 )
 
 type c12Val interface{}
@@ -363,6 +365,16 @@ type c12Path struct {
 	Skipped []string
 	Loops   []c12Loop
 	Ret     []c12Val
+	// Final: the receiver state at the end of the path (initial values and everything stored on the way)
+	Final map[string]c12Val
+	// SkippedAt: the loop statements behind the entries of Skipped, with the function they stand in
+	SkippedAt []c12SkippedLoop
+}
+
+type c12SkippedLoop struct {
+	Node ast.Stmt
+	Pkg  *packages.Package
+	Fn   string
 }
 
 func (p *c12Path) condString() string {
